@@ -17,7 +17,7 @@ if ! git -C "$WT" apply "$V/patch.diff" 2>"$V/verify_apply.log"; then
 fi
 ( cd "$WT" && go build ./... ) >"$V/verify_build.log" 2>&1 || { res "does not build"; exit 2; }
 s=skipped
-if [ $SUITE = 1 ]; then /verif/tools/suite.py "$WT" >"$V/verify_suite.log" 2>&1; s=$?; fi
+if [ $SUITE = 1 ]; then /verif/tools/suite.py "$WT" "$V/patch.diff" >"$V/verify_suite.log" 2>&1; s=$?; fi
 ( cd "$V/demo" && bash ./run.sh "$WT" ) >"$V/verify_demo_patched.log" 2>&1; d1=$?
 git -C "$WT" clean -fdq
 ( cd /verif && VERIF_REPO="$WT" ./check "$ID" "$TIER" ) >"$V/verify_check.log" 2>&1; c=$?
